@@ -161,6 +161,28 @@ def loose_cases(seed, n):
     return out
 
 
+def unicode_cases(seed, n):
+    """strings outside ASCII (the byte stream is the UTF-8 encoding with its byte length): a string and the string whose characters are
+    the bytes of its encoding (mojibake) are different literals / keys with different behaviour"""
+    r = __import__("random").Random(seed)
+    pool = ["\u00e9", "\u00fc\u00f1", "\u0121", "\u65e5\u672c", "caf\u00e9", "\u00c4\u00a1", "na\u00efve", "\u00df", "\u20ac5", "\u00e9\u0121"]
+    out = []
+    for i in range(n):
+        s0 = r.choice(pool)
+        moji = s0.encode("utf-8").decode("latin-1")
+        shape = r.choice(["const", "key", "nested"])
+        def mk(x):
+            if shape == "const": return ("Const", x)
+            if shape == "key": return ("Object", [(x, ("Typeof", "string"))], [])
+            return ("Object", [("k", ("Array", ("Const", x)))], [])
+        def val(x):
+            if shape == "const": return S(x)
+            if shape == "key": return OBJ([(x, S("v"))])
+            return OBJ([("k", ARR([S(x)]))])
+        out.append({"env": [], "rt": mk(s0), "vals": [val(s0), val(moji)], "source": "non-ascii", "mutants_extra": [("string replaced by the bytes of its encoding", mk(moji))]})
+    return out
+
+
 def retarget_cases(seed, n):
     """Mutually recursive named object types; the mutant re-targets one back-reference (nested cycle ids matter)."""
     g = gen.Gen(seed)
@@ -215,6 +237,7 @@ def check(run):
     cases += rstage.gen_forced(run.seed + 1302, 64 if quick else 1200, 5)
     cases += retarget_cases(run.seed + 1304, 60 if quick else 800)
     cases += loose_cases(run.seed + 1305, 40 if quick else 600)
+    cases += unicode_cases(run.seed + 1306, 30 if quick else 400)
     g = gen.Gen(run.seed + 1303)
     jobs, exprs, meta = [], [], []
     for ci, c in enumerate(cases):
@@ -258,7 +281,7 @@ def check(run):
                 disagree.append(("hash256 encoding", dict(desc, impl=out[0][:400], model=r["m256"][:400])))
         elif out[0] != r["m256"]:
             disagree.append(("hash256 encoding", dict(desc, impl=out[0][:400], model=r["m256"][:400])))
-        if out[1] != r["m32"]:
+        if out[1] != r["m32"] and cases[ci].get("source") != "non-ascii":      # hash() reads UTF-16 code units; the model's strings are bytes
             disagree.append(("hash32", dict(desc, impl=out[1], model=r["m32"])))
     known = common.load_known("C13")
     listed = {k["class"] for k in known if k.get("kind") == "known"}
@@ -309,7 +332,9 @@ def check(run):
         "Props/C13.v and by node:crypto on every run); the theorem is about buffering, chunking, padding and the length field",
         "Model/Hash256Enc.v tied to codegen-v2.ts by the recorded byte stream of hash256()",
         "constants K, H0, frame bytes, hash seeds regenerated from hash.ts (Model/Generated.v) on every run",
-        "compareConst is localeCompare: modelled as code-unit order on the generated (lower-case ASCII) constants",
+        "compareConst is localeCompare: modelled as the ICU root order on the alphabet of the generated constants (Model/Hash256Enc.v collate_leb)",
+        "strings of the model are byte strings: non-ASCII literals and keys are fed as their UTF-8 encoding, which is what hash256 writes; "
+        "the 32-bit hash() of non-ASCII strings (UTF-16 code units) is not modelled",
         "SHA-256 collision resistance is not assumed: 'different behaviour => different digest' is checked on generated pairs only"]
     for k in known:
         w = eval(k["witness"], {"__builtins__": {}}, {"None": None, "True": True, "False": False})
